@@ -111,14 +111,14 @@ def main():
     # (family, op, kindop, space kind, wavenumbers)
     kreal, kcplx = 1.7, 1.1 + 0.35j
     cfg = [("laplace", "single_layer", "DP0", [None]), ("laplace", "double_layer", "P1", [None]),
-           ("helmholtz", "single_layer", "P1", [kreal, kcplx, 0.8j]), ("helmholtz", "double_layer", "DP1", [kcplx, 1.3j]),
+           ("helmholtz", "single_layer", "P1", [kreal, kcplx, 0.8j, 1.2 - 0.3j]), ("helmholtz", "double_layer", "DP1", [kcplx, 1.3j, 0.9 - 0.35j]),
            ("modified_helmholtz", "single_layer", "P1", [0.9]), ("modified_helmholtz", "double_layer", "DP0", [1.4]),
            ("maxwell", "electric_field", "RWG", [kreal, kcplx]), ("maxwell", "magnetic_field", "RWG", [kcplx]),
            ("ff_helmholtz", "single_layer", "P1", [kreal, kcplx]), ("ff_helmholtz", "double_layer", "P1", [kreal, kcplx]),
            ("ff_maxwell", "electric_field", "RWG", [kreal, kcplx]), ("ff_maxwell", "magnetic_field", "RWG", [kreal])]
     if not ctx.quick and not ctx.worker:
         cfg += [("laplace", "single_layer", "P1", [None]), ("laplace", "double_layer", "DP0", [None]), ("helmholtz", "single_layer", "DP0", [0.3, 4.0 + 0.1j]),
-                ("helmholtz", "double_layer", "P1", [kreal, 0.2j + 2.0]), ("maxwell", "magnetic_field", "RWG", [kreal]), ("ff_maxwell", "magnetic_field", "RWG", [kcplx])]
+                ("helmholtz", "double_layer", "P1", [kreal, 0.2j + 2.0]), ("maxwell", "magnetic_field", "RWG", [kreal, 0.8 - 0.25j]), ("maxwell", "electric_field", "RWG", [1.1 - 0.2j]), ("ff_maxwell", "magnetic_field", "RWG", [kcplx])]
     nvar = 2 if ctx.quick or ctx.worker else 4
     worst = {}
     for mname, mesh in pool:
